@@ -216,7 +216,7 @@ def base_programs(rng, n):
         else:
             p = c10.gen(rng)
             text = p[0] if isinstance(p, tuple) else p
-            out.append(('symbols', text.split('\n') if isinstance(text, str) else list(text)))
+            out.append(('symbols', text.split('\n') if isinstance(text, str) else [x for l in text for x in l.split('\n')]))   # c10 elements may hold several lines
     return out
 
 def images(res):
